@@ -137,15 +137,23 @@ func (c19) Exec(sc *sim.Scenario, env *sim.Env) *sim.Violation {
 			continue
 		}
 		capacity := int(c)
-		e := asm.NewEmitter(make([]byte, capacity), gentext)
+		target := make([]byte, capacity)
+		for j := range target {
+			target[j] = 0xA5 ^ byte(j)
+		}
+		e := asm.NewEmitter(target, gentext)
 		m := newAsmModel(true, capacity, gentext)
 		refusals := 0
 		for i, op := range ops {
 			before := snapEmitter(e)
+			tbefore := append([]byte{}, target...)
 			out := m.step(op)
 			panicked, msg := asmApply(e, op)
 			after := snapEmitter(e)
 			st.SimOps++
+			if v := accessorViolation(after, i, op); v != nil {
+				return v
+			}
 			env.ObsBool(panicked)
 			obsSnap(env, after)
 			if after.Len > after.Cap {
@@ -173,6 +181,10 @@ func (c19) Exec(sc *sim.Scenario, env *sim.Env) *sim.Violation {
 				if d := before.diff(after, false); d != "" {
 					return &sim.Violation{Oracle: "refusal_not_atomic", Step: i,
 						Msg: fmt.Sprintf("cap=%d op %s refused (%s) but state changed: %s", capacity, op, msg, d)}
+				}
+				if string(tbefore) != string(target) {
+					return &sim.Violation{Oracle: "refusal_wrote_target", Step: i,
+						Msg: fmt.Sprintf("cap=%d len=%d op %s refused (%s) but bytes of the target buffer were written (not refused as a whole)", capacity, before.Len, op, msg)}
 				}
 				continue
 			}
@@ -206,6 +218,12 @@ func (c19) Exec(sc *sim.Scenario, env *sim.Env) *sim.Violation {
 		p2, m2 := asmApply(ample, op)
 		st.SimOps += 2
 		a, b := snapEmitter(nilE), snapEmitter(ample)
+		if v := accessorViolation(a, i, op); v != nil {
+			return v
+		}
+		if v := accessorViolation(b, i, op); v != nil {
+			return v
+		}
 		env.ObsBool(p1)
 		env.ObsU64(uint64(a.PC))
 		if p1 != p2 {
